@@ -109,6 +109,16 @@ CLAIMS = {
              "and __eq__/__hash__ keyed on exactly (value, width) for all 16 width pairs.",
         note="Trusted: struct format semantics. hex_str/__str__ formatting is not checked.",
         technique=TECH + "; table extraction by constant evaluation"),
+    "C14": dict(
+        text="Static analysis: pack() and the three decoders per bit against CCSDS 301.0-B-4 3.3; accepted P-fields by finite case "
+             "analysis of the decoder's guard facts over all 256 octets; epoch constants against a date difference computed by the "
+             "checker; unix seconds as one linear form 86400*(days-4383)+ms/1000; from_datetime's quotient/remainder must use floor "
+             "division and modulo of the same floored dividend; __add__ is split on its gated result and each branch decided by "
+             "linear entailment (ms in [0,86399999], carry exactly at 86400000, day <= 65535 or OverflowError), refutations carry a "
+             "concrete (timestamp, timedelta) witness. Floating-point exactness below one millisecond and the wall-clock helpers "
+             "are not decided.",
+        note="Trusted: datetime/timedelta and IEEE-754 semantics; timedelta components normalised as datetime guarantees.",
+        technique=TECH + "; idiom normal forms for integer kernels"),
 }
 
 NOT_CLAIMED = {}
